@@ -81,6 +81,9 @@ type Op struct {
 	// RO: a signed Request Object in the `request` parameter ("" none | "ok" | a defect that makes
 	// op.ParseRequestObject refuse it) and the members it carries ("" / nil = member absent).
 	NoMethod bool
+	// authorize by POST: the parameters named in InQuery travel in the URL query, all others in the body
+	Post     bool
+	InQuery  []string
 	RO       string
 	ROURI    string
 	ROScopes []string
@@ -144,6 +147,10 @@ func (o Op) Coq() string {
 		case "bad":
 			hint = emit.Some(emit.None)
 		}
+		via := "V_get"
+		if o.Post {
+			via = emit.Ctor("V_post", emit.StrList(o.InQuery))
+		}
 		ro := emit.None
 		if o.RO != "" {
 			cm := emit.None
@@ -154,7 +161,7 @@ func (o Op) Coq() string {
 				"; ro_nonce := " + emit.Str(o.RONonce) + "; ro_cc := " + emit.Str(o.ROChal) + "; ro_cm := " + cm + " |}")
 		}
 		t = emit.Ctor("Authorize", emit.Str(o.Client), emit.Str(o.URI), emit.StrList(o.Scopes), emit.Str(o.Nonce), ch,
-			"{| x_hint := "+hint+"; x_prompt := "+emit.StrList(o.Prompt)+"; x_ro := "+ro+" |}")
+			"{| x_hint := "+hint+"; x_prompt := "+emit.StrList(o.Prompt)+"; x_ro := "+ro+"; x_via := "+via+" |}")
 	case "login":
 		t = emit.Ctor("Login", emit.Nat(o.Req), emit.Str(o.Sub), emit.Nat(o.Stamp))
 	case "callback":
@@ -171,6 +178,8 @@ func (o Op) Coq() string {
 		t = emit.Ctor("DropRefresh", emit.Str(o.Client))
 	case "revoke":
 		t = emit.Ctor("RevokeRT", emit.Nat(o.RT))
+	case "dropgrants":
+		t = emit.Ctor("DropGrants", emit.Str(o.Client))
 	}
 	return emit.Pair(routerCoq(o.Router), t)
 }
@@ -233,15 +242,16 @@ func (c ClientInfo) Coq() string {
 
 type Options struct {
 	NoPost, NoPKJWT, NoRefresh bool
-	DropRefresh                string            // client that loses the refresh_token grant ("" = none)
-	DropCode                   string            // client that loses the authorization_code grant
-	LiveGrants                 bool              // the storage hands out the live refresh grant (refstore ext_c07.go)
-	KeepRT                     bool              // the storage does not rotate refresh tokens (refstore ext_c07.go)
-	NoReqObj                   bool              // Config.RequestObjectSupported off
-	Aud                        []string          // the audience the storage gives every grant (nil = the client alone)
-	ReplaceUI                  bool              // the storage replaces the userinfo struct it is handed instead of setting fields (refstore AsStyledStorage)
-	Loud                       bool              // the storage returns what it knows NEXT TO the error of a refused lookup (refstore AsLoudStorage)
-	AuthOther                  map[string]string // client id -> registered auth method outside the four named values
+	DropRefresh                string                      // client that loses the refresh_token grant ("" = none)
+	DropCode                   string                      // client that loses the authorization_code grant
+	LiveGrants                 bool                        // the storage hands out the live refresh grant (refstore ext_c07.go)
+	KeepRT                     bool                        // the storage does not rotate refresh tokens (refstore ext_c07.go)
+	NoReqObj                   bool                        // Config.RequestObjectSupported off
+	Aud                        []string                    // the audience the storage gives every grant (nil = the client alone)
+	ReplaceUI                  bool                        // the storage replaces the userinfo struct it is handed instead of setting fields (refstore AsStyledStorage)
+	Loud                       bool                        // the storage returns what it knows NEXT TO the error of a refused lookup (refstore AsLoudStorage)
+	Grants                     map[string][]oidc.GrantType // client id -> the registered grant list (nil / empty / partial)
+	AuthOther                  map[string]string           // client id -> registered auth method outside the four named values
 }
 
 // OtherAuthMethods: values of Client.AuthMethod() the library has no name for. The empty string
@@ -346,6 +356,8 @@ func IDTokenHint(sub, aud, kind string) string {
 	return out
 }
 
+var runStart = time.Now()
+
 const authBase = 1_600_000_000 // auth_time of login stamp k is authBase + k
 
 const UnknownBase = 900 // canonical ids >= UnknownBase were never issued
@@ -440,6 +452,11 @@ func NewWorld(o Options) (*World, error) {
 	}
 	for _, c := range ExtraClients() {
 		st.Clients[c.ID] = c
+	}
+	for id, gs := range o.Grants {
+		if c, ok := st.Clients[id]; ok {
+			c.Grants = gs
+		}
 	}
 	for id, m := range o.AuthOther {
 		if c, ok := st.Clients[id]; ok {
@@ -800,8 +817,13 @@ func (w *World) tokenOut(resp *opfix.Resp) Out {
 	t.Nonce = str(idp, "nonce")
 	if f, ok := idp["auth_time"].(float64); ok {
 		t.Auth = int(int64(f) - authBase)
-		if t.Auth < 0 || t.Auth > 5000 {
-			return Out{Coq: "OOther", Human: "auth_time not a login stamp"}
+		if t.Auth < 0 || t.Auth > 2900 {
+			// not a login stamp: report it relative to the start of the run, so that two such values
+			// are equal only if they name the same second
+			t.Auth = 3000 + int(int64(f)-runStart.Unix())
+			if t.Auth < 3000 || t.Auth > 9000 {
+				return Out{Coq: "OOther", Human: "auth_time neither a login stamp nor a time of this run"}
+			}
 		}
 	}
 	if rt := resp.Str("refresh_token"); rt != "" {
@@ -847,7 +869,32 @@ func (w *World) Exec(o Op) Out {
 		if o.MaxAge != "" {
 			q.Set("max_age", o.MaxAge)
 		}
-		resp, id := w.F.Authorize(o.Router, q)
+		var resp *opfix.Resp
+		var id string
+		if o.Post {
+			query, body := url.Values{}, url.Values{}
+			for k, v := range q {
+				body[k] = v
+			}
+			for _, k := range o.InQuery {
+				if body.Has(k) {
+					query[k] = body[k]
+					body.Del(k)
+				}
+			}
+			target := w.F.Opts.Issuer + "/authorize"
+			if len(query) > 0 {
+				target += "?" + query.Encode()
+			}
+			req := httptest.NewRequest(http.MethodPost, target, strings.NewReader(body.Encode()))
+			req.Header.Set("Content-Type", "application/x-www-form-urlencoded")
+			resp = opfix.Do(w.F.Handlers[o.Router], req)
+			if resp.Status == http.StatusFound && resp.Location != nil && strings.HasPrefix(resp.Location.Path, "/login") {
+				id = resp.Location.Query().Get("authRequestID")
+			}
+		} else {
+			resp, id = w.F.Authorize(o.Router, q)
+		}
 		if resp.Panic != "" {
 			return Out{Coq: "OPanic", Human: resp.Panic}
 		}
@@ -864,6 +911,9 @@ func (w *World) Exec(o Op) Out {
 		ok := w.St.Login(id, o.Sub)
 		if ok {
 			w.St.AuthReqs[id].AuthTime = time.Unix(authBase+int64(o.Stamp), 0)
+			if o.Stamp == 0 { // the storage records no authentication time
+				w.St.AuthReqs[id].AuthTime = time.Time{}
+			}
 		}
 		return Out{Coq: emit.Ctor("OLogin", emit.Bool(ok)), OK: ok}
 	case "callback":
@@ -900,6 +950,11 @@ func (w *World) Exec(o Op) Out {
 		return w.tokenOut(resp)
 	case "refresh":
 		return w.tokenOut(opfix.Do(w.F.Handlers[o.Router], w.tokenHTTP(o)))
+	case "dropgrants":
+		if c, ok := w.St.Clients[o.Client]; ok {
+			c.Grants = nil
+		}
+		return Out{Coq: "ODone"}
 	case "revoke":
 		// the storage lets the token expire: it refuses it from now on, though it still holds the record
 		w.St.ExpireRefreshToken(w.realID("rt", o.RT))
